@@ -18,7 +18,7 @@
            background is the spectral theorem (every Hermitian matrix is so diagonalisable) and,
            for the "particle sector" clause, that H restricted to a sector is again Hermitian.
     Everything else is proved for every size. *)
-From Qib Require Import VQE.VqeProofs Base.Inst.
+From Qib Require Import VQE.VqeProofs VQE.VqeHistProofs Base.Inst.
 From Run Require Import GenVqe.
 
 (* ------------------------------------------------------------------ expectation values *)
@@ -193,6 +193,100 @@ Example C20_instance :
   dense 2 (exponent (K:=ZI) (-1) (cluster_mx 2 [true; false] (theta_of_list (K:=ZI) 2 [(1,0); (2,0); (3,0); (4,0)]%Z)))
   = [[(0,0); (0,0); (0,0); (0,0)]; [(0,0); (0,0); (1,0); (0,0)]; [(0,0); (-1,0); (0,0); (0,0)]; [(0,0); (0,0); (0,0); (0,0)]]%Z.
 Proof. vm_compute. repeat split. Qed.
+
+(* ================================================================== histories / object lifetimes *)
+(** The statements above are about ONE call.  Below: a VQE instance used over time.  The world
+    contains the instance (ansatz, initial state, optimal parameters of the last run) and the
+    CALLER's operator objects, which the caller may replace or change IN PLACE between runs
+    (add_pauli_string, weights, ...).  [gen_run] is what gen/vqe.py reads from VQE.run: the energy
+    function measures the operator object it was passed, in the state
+    ansatz.as_matrix(params) @ initial_state, both read at call time; the instance keeps nothing
+    else ([OpArgument]; a matrix kept on the instance is refused by the translator and is the
+    [OpCachedById] of the model).  The optimiser is an ARBITRARY function [choose] from energy
+    functions to parameter vectors. *)
+
+(** 9. ANY history of replacing / changing in place the initial state, the ansatz, the operator
+    objects, and of run / expectation_secondary_ops calls: at every call the inputs are what the
+    caller's changes made of them (runs do not touch them), and every run reports
+    psi^dagger P psi for P = the operator object passed to it AS IT IS AT THAT CALL and
+    psi = ansatz(x) initial_state with the ansatz / initial state current at that call, x = the
+    optimiser's choice for exactly this energy function. *)
+Theorem C20_history_every_run_reports_the_current_expectation :
+  forall (K : Scalar) (A : Type) (choose : (A -> K) -> A) (n : nat)
+         (st0 : vstate A) (cs : list (call (vsetter A) vgetter)),
+    map (fun x => inputs A (snd x)) (handed_states (vset A) (vgeff A choose gen_expect n gen_run) st0 cs)
+    = inputs_trace A (inputs A st0) cs /\
+    forall a st, In (VRun a, st) (handed_states (vset A) (vgeff A choose gen_expect n gen_run) st0 cs) ->
+      let f := fun x => quad n (op_now A st a) (mvec n (v_ans A st x) (v_init A st)) in
+      vview A choose gen_expect n gen_run (VRun a) st = VEnergy A f (choose f) (f (choose f)).
+Proof.
+  intros K A choose n st0 cs. split; [apply vqe_inputs_trace|].
+  intros a st _ f. rewrite run_reports_current by reflexivity. reflexivity.
+Qed.
+Print Assumptions C20_history_every_run_reports_the_current_expectation.
+
+(** 9a. an in-place change of the operator object is what the next run on that object measures *)
+Theorem C20_history_in_place_change_is_seen :
+  forall (K : Scalar) (A : Type) (choose : (A -> K) -> A) (n : nat) (st : vstate A) (a : nat) (P : BMx K),
+    (a < length (v_ops A st))%nat ->
+    let st' := vset A (VMutOp A a P) st in
+    let f := fun x => quad n P (mvec n (v_ans A st x) (v_init A st)) in
+    vview A choose gen_expect n gen_run (VRun a) st' = VEnergy A f (choose f) (f (choose f)).
+Proof.
+  intros K A choose n st a P H st' f. rewrite run_reports_current by reflexivity.
+  unfold st'. rewrite op_now_mut by exact H. reflexivity.
+Qed.
+Print Assumptions C20_history_in_place_change_is_seen.
+
+(** 9b. heap side: results (OptimizeResult objects) handed out by earlier runs are unaffected by
+    later calls; compiles only if run() returns the optimiser's own result object and stores
+    nothing but the optimal parameters *)
+Theorem C20_history_results_keep_their_value :
+  forall (K : Scalar) (A : Type) (choose : (A -> K) -> A) (n : nat)
+         (st0 : vstate A) (cs cs' : list (call (vsetter A) vgetter)),
+    let set := vset A in
+    let view := vview A choose gen_expect n gen_run in
+    let geff := vgeff A choose gen_expect n gen_run in
+    let I := kind_impl set view geff gen_vqe_getters in
+    let w0 := kind_start set view geff gen_vqe_getters st0 in
+    observed (irun I cs w0) = map Some (handed set view geff st0 cs) /\
+    observed (irun I (cs ++ cs') w0)
+    = observed (irun I cs w0) ++ map Some (handed set view geff (final set geff st0 cs) cs').
+Proof.
+  intros K A choose n st0 cs cs' set view geff I w0. split;
+    [apply kind_fresh_observed|apply kind_fresh_earlier_unaffected]; reflexivity.
+Qed.
+Print Assumptions C20_history_results_keep_their_value.
+
+(** 9c. (does not depend on the regenerated definitions) with a matrix kept on the instance and
+    validated by the identity of the operator object, run; change the operator in place; run
+    reports the energy of the OLD operator (2 instead of 5) *)
+Theorem C20_history_matrix_cached_by_identity_refuted :
+  exists (st0 : vstate (K:=ZI) unit) (cs : list (call (vsetter (K:=ZI) unit) vgetter)),
+    let choose := fun _ : unit -> ZI => tt in
+    let ex := {| ex_left := SConj; ex_mat := MId; ex_right := SId |} in
+    map (reported unit) (handed (vset unit) (vview unit choose ex 0 {| rs_op := OpCachedById |})
+                                (vgeff unit choose ex 0 {| rs_op := OpCachedById |}) st0 cs)
+    <> map (reported unit) (handed (vset unit) (vview unit choose ex 0 {| rs_op := OpArgument |})
+                                   (vgeff unit choose ex 0 {| rs_op := OpArgument |}) st0 cs).
+Proof.
+  exists {| v_ans := fun _ : unit => mid (K:=ZI); v_init := fun _ => (1, 0)%Z; v_opt := None;
+            v_ops := [fun _ _ => (2, 0)%Z]; v_cache := None |},
+         [CGet (VRun 0); CSet (VMutOp (K:=ZI) unit 0%nat (fun _ _ => (5, 0)%Z)); CGet (VRun 0)].
+  intros choose ex. destruct cached_by_id_refuted as [E1 E2].
+  cbv zeta in E1, E2. unfold choose, ex. rewrite E1, E2. discriminate.
+Qed.
+Print Assumptions C20_history_matrix_cached_by_identity_refuted.
+
+(** 9d. value histories: measure_expectation_statevector on ONE operator object and ONE state
+    array changed in place between the calls returns, at every call, psi^dagger P psi for the
+    operator and state as they are at that call *)
+Theorem C20_history_expectation_of_current_operator_and_state :
+  forall (K : Scalar) (n : nat) (st0 : mstate (K:=K)) (cs : list (call (msetter (K:=K)) unit)),
+    handed mset (mview gen_expect n) mgeff st0 cs
+    = map (fun x => quad n (m_op (snd x)) (m_psi (snd x))) (handed_states mset mgeff st0 cs).
+Proof. intros. reflexivity. Qed.
+Print Assumptions C20_history_expectation_of_current_operator_and_state.
 
 (* ------------------------------------------------------------------ over the complex numbers *)
 From Coq Require Import Reals.
